@@ -35,6 +35,10 @@ def _ref_symvar_enum(n):
     # fb f1 declares an enum-typed variable cur and nm0; after `cur := green` the condition of an IF uses nm1
     return {'P0015'} if n[1] not in (n[0], 'cur', 'f1') else set()
 def _ref_task(n): return {'P0011'} if n[1] != n[0] else set()
+def _ref_gconst(n):
+    # configuration declares constant global nm0, its resource declares constant global nm1; function block fb re-declares nm2 as VAR_EXTERNAL without CONSTANT.
+    # P0018 iff nm2 names one of the constant globals (2.4.3: globals of the configuration and of its resources)
+    return {'P0018'} if n[2] in (n[0], n[1]) else set()
 def _ref_fbcall(n):
     # program main declares instance nm0 and invokes nm1; function block logger declares instance nm2 and invokes nm3.
     # P0021 iff an invoked name is not an instance variable of its own POU
@@ -51,6 +55,9 @@ RULES = {
         text='TYPE\n  color : (red, green) := red;\nEND_TYPE\nFUNCTION_BLOCK f1\nVAR\n  cur : color := red;\n  nm0 : BOOL;\nEND_VAR\n  cur := green;\n  IF nm1 THEN\n    cur := red;\n  END_IF;\nEND_FUNCTION_BLOCK\n'),
     'function_block_invocation': dict(mod='rule_function_block_invocation', k=4, alpha=['a', 'b'], ref=_ref_fbcall, swap=('main', 'logger'), codes={'P0021'},
         text='FUNCTION_BLOCK callee\nVAR_INPUT\n  in1 : BOOL;\nEND_VAR\nEND_FUNCTION_BLOCK\nPROGRAM main\nVAR\n  nm0 : callee;\nEND_VAR\n  nm1(in1 := TRUE);\nEND_PROGRAM\nFUNCTION_BLOCK logger\nVAR\n  nm2 : callee;\nEND_VAR\n  nm3(in1 := TRUE);\nEND_FUNCTION_BLOCK\n'),
+    'global_const_requires_external_const': dict(mod='rule_var_decl_global_const_requires_external_const', k=3, alpha=['a', 'b', 'c'], ref=_ref_gconst, codes={'P0018'},
+        text='CONFIGURATION cfg\n  VAR_GLOBAL CONSTANT\n    nm0 : INT := 1;\n  END_VAR\n  RESOURCE res ON PLC\n    VAR_GLOBAL CONSTANT\n      nm1 : INT := 2;\n    END_VAR\n    TASK tsk(INTERVAL := T#100ms, PRIORITY := 1);\n    PROGRAM inst WITH tsk : prog;\n  END_RESOURCE\nEND_CONFIGURATION\n'
+             'PROGRAM prog\nVAR\n  x : INT;\nEND_VAR\nEND_PROGRAM\nFUNCTION_BLOCK fb\nVAR_EXTERNAL\n  nm2 : INT;\nEND_VAR\nEND_FUNCTION_BLOCK\n'),
     'program_task_definition_exists': dict(mod='rule_program_task_definition_exists', k=2, alpha=['a', 'b'], ref=_ref_task,
         text='CONFIGURATION cfg\n  RESOURCE res ON PLC\n    TASK nm0(INTERVAL := T#100ms, PRIORITY := 1);\n    PROGRAM inst WITH nm1 : prog;\n  END_RESOURCE\nEND_CONFIGURATION\nPROGRAM prog\nVAR\n  x : INT;\nEND_VAR\nEND_PROGRAM\n'),
 }
@@ -70,7 +77,7 @@ def _elem_name(M, e):
     return None
 
 def _rule_job(job):
-    rname = job[0]; swapped = len(job) > 1 and job[1]
+    rname = job[0]; swapped = len(job) > 1 and job[1]; respell = len(job) > 2 and job[2]
     ctx = _CTX; part = Part(); part.verdicts = {}
     spec = RULES[rname]
     P = ctx.program()
@@ -88,9 +95,17 @@ def _rule_job(job):
         lib = deep_clone(lib0)
         ids = {n: models.str_term(M, Str(n)) for n in spec['alpha']}
         mapping = {}
+        upids = {n: models.str_term(M, Str(n.upper())) for n in spec['alpha']} if respell else None
         for i in range(spec['k']):
             v = M.fresh_bv('name_%d' % i, 32); M.assume(z3.Or([v == ids[n] for n in spec['alpha']])); sym[i] = (v, ids)
-            mapping['nm%d' % i] = (lambda v: (lambda orig: TC.ident_sym(v, orig)))(v)
+            if respell:
+                # the occurrence may be written in upper case: the spelling as written differs, the name (its lower-case form) does not
+                cb = M.fresh_bool('upper_%d' % i); sym[('case', i)] = cb
+                up = v
+                for n in spec['alpha']: up = z3.If(v == ids[n], upids[n], up)
+                mapping['nm%d' % i] = (lambda w, v: (lambda orig: TC.ident_sym(w, orig, v)))(z3.If(cb, up, v), v)
+            else:
+                mapping['nm%d' % i] = (lambda v: (lambda orig: TC.ident_sym(v, orig)))(v)
         return M.call_fn(key, [Ref(Cell(LC.subst_names(lib, mapping)))])
     def on_path(M, pr):
         part.paths += 1
@@ -108,10 +123,20 @@ def _rule_job(job):
             for i, nm in enumerate(names):
                 v, ids = sym[i]; s.add(v == ids[nm])
             t = time.time(); r = s.check(); part.solver_s += time.time() - t; part.queries += 1
+            mdl = s.model() if (r == z3.sat and respell) else None
             s.pop()
             if r != z3.sat: continue
             names = list(names)
             src = _subst_text(spec['text'], names); want = spec['ref'](names)
+            if respell:
+                # verdict on a re-spelled program must be the verdict of the rule's documentation on the names (case never matters)
+                ups = [z3.is_true(mdl.eval(sym[('case', i)], True)) for i in range(spec['k'])]
+                if pr.panic or got != want:
+                    src2 = _subst_text(spec['text'], [n.upper() if u else n for n, u in zip(names, ups)])
+                    part.add('C08/K6/%s/verdict-changes-under-respelling' % rname, 'rule %s: names %s with occurrences %s written in upper case -> reported %s, the same program in one spelling requires %s' % (rname, names, [i for i, u in enumerate(ups) if u], 'a panic' if pr.panic else (sorted(got) or 'nothing'), sorted(want) or 'nothing'),
+                             {'names': names, 'upper_case_occurrences': ups, 'source': src2}, ('rule', (src2, sorted(want), rname)))
+                elif len(part.validate) < 1 and any(ups): part.validate.append(('rule', (_subst_text(spec['text'], [n.upper() if u else n for n, u in zip(names, ups)]), sorted(want), rname)))
+                continue
             part.verdicts[tuple(names)] = 'panic' if pr.panic else tuple(sorted(got))
             if swapped: continue
             if pr.panic:
